@@ -504,7 +504,7 @@ class Runner(object):
             msg = dict(op["msg"])
             extra = op.get("extra")
             if extra:
-                msg.update(extra)     # keys the handlers must ignore (not sent to the model)
+                msg.update(extra)     # keys the handlers must ignore (the model's decoder gets them too and ignores them: Props/Decode.lean)
             self.cur_msg = json.loads(json.dumps(msg))
             payload = json.dumps(msg).encode("utf-8")
             try:
